@@ -1,14 +1,322 @@
-(* Proofs about the C05 model (Model/C05_Nsga2.v) relative to the specification Model/C05_Spec.v. *)
-From Coq Require Import List ZArith QArith Bool Lia Permutation.
-From DV Require Import Base.Corr Base.PyList Base.C05_Sort Model.C05_Nsga2 Model.C05_Spec.
+(* Proofs about the C05 model (Model/C05_Nsga2.v) relative to the specification Model/C05_Spec.v:
+   the structural part (size, references, no duplicates, front priority, single cut front,
+   crowding order inside the cut front).  Valid for every arithmetic instance `o`. *)
+From Coq Require Import List ZArith Bool Lia Permutation Arith.
+From DV Require Import Base.Corr Base.PyList Base.C05_Sort Base.C05_List
+     Model.C05_Nsga2 Model.C05_Spec Proofs.C05_Spec.
 Import ListNotations.
+
+(* ---------- depth and prefixes of the layer list (no arithmetic involved) ---------- *)
+Section DepthPrefix.
+  Context {A : Type}.
+  Notation indA := (ind A).
+
+  Lemma depth_prefix (ls : list (list indA)) : forall m u,
+    In u (uids (concat ls)) ->
+    (In u (uids (concat (firstn m ls))) <-> depth_in ls u < m).
+  Proof.
+    induction ls as [|l r IH]; intros m u I; [contradiction|].
+    destruct m as [|m]; [cbn; split; [contradiction|lia]|].
+    cbn [firstn concat depth_in]. unfold uids in *. cbn [concat] in I. rewrite map_app in *.
+    fold (uids l) in *. destruct (mem_uid u l) eqn:M.
+    - apply mem_uid_in in M. split; [lia|]. intros _. apply in_or_app. left; exact M.
+    - assert (NM : ~ In u (uids l)) by (intro X; apply mem_uid_in in X; congruence).
+      apply in_app_or in I. destruct I as [I|I]; [contradiction|].
+      specialize (IH m u I). unfold uids in IH. split.
+      + intro H. apply in_app_or in H. destruct H as [H|H]; [contradiction|]. apply IH in H. lia.
+      + intro H. apply in_or_app. right. apply IH. lia.
+  Qed.
+
+  Lemma uidperm_concat (l L : list (list indA)) :
+    Forall2 (fun f l => Permutation (uids f) (uids l)) l L ->
+    Permutation (uids (concat l)) (uids (concat L)).
+  Proof.
+    induction 1; cbn; [constructor|]. unfold uids in *. rewrite !map_app. apply Permutation_app; assumption.
+  Qed.
+
+  Lemma total_firstn_le (ls : list (list indA)) m : total (firstn m ls) <= total ls.
+  Proof.
+    unfold total. rewrite <- (firstn_skipn m ls) at 2. rewrite concat_app, app_length. lia.
+  Qed.
+
+  Lemma total_snoc (l : list (list indA)) x : total (l ++ [x]) = total l + length x.
+  Proof. unfold total. rewrite concat_snoc, app_length. reflexivity. Qed.
+
+  Lemma uids_length (l : list indA) : length (uids l) = length l.
+  Proof. apply map_length. Qed.
+
+  (* what fronts_correct gives for k > 0, in the shape the selection code uses *)
+  Lemma fronts_shape (pop : list indA) k fronts :
+    fronts_correct pop (S k) fronts ->
+    exists m init lastf,
+      fronts = init ++ [lastf] /\
+      Permutation (uids (concat init)) (uids (concat (firstn m (layers pop)))) /\
+      Permutation (uids (concat init ++ lastf)) (uids (concat (firstn (S m) (layers pop)))) /\
+      length (concat init) < Nat.min (S k) (length pop) /\
+      Nat.min (S k) (length pop) <= length (concat init) + length lastf /\
+      length (concat init) + length lastf <= length pop.
+  Proof.
+    intros [_ [m [Lf [F2 [Lo Hi]]]]].
+    assert (NE : fronts <> []) by (intro E; subst; discriminate).
+    rewrite (app_removelast_last [] NE) in F2.
+    set (init := removelast fronts) in *. set (lastf := last fronts []) in *.
+    pose proof (Forall2_length _ _ _ F2) as L2. rewrite app_length in L2. change (length [lastf]) with 1 in L2.
+    assert (Li : length init = m).
+    { unfold init. rewrite removelast_firstn_len, firstn_length. lia. }
+    assert (Lm : m < length (layers pop)).
+    { rewrite firstn_length in L2. lia. }
+    rewrite (firstn_S_snoc m _ [] Lm) in F2.
+    apply Forall2_snoc_inv in F2. destruct F2 as [L1 [y [E [F1 Ry]]]].
+    apply app_inj_tail in E. destruct E as [<- <-].
+    exists m, init, lastf. split; [apply (app_removelast_last [] NE)|].
+    pose proof (uidperm_concat _ _ F1) as P1.
+    assert (P2 : Permutation (uids (concat init ++ lastf))
+                             (uids (concat (firstn (S m) (layers pop))))).
+    { rewrite (firstn_S_snoc m _ [] Lm), concat_snoc. unfold uids in *. rewrite !map_app.
+      apply Permutation_app; assumption. }
+    split; [exact P1|]. split; [exact P2|].
+    assert (C1 : length (concat init) = total (firstn m (layers pop))).
+    { unfold total. rewrite <- (uids_length (concat init)), <- (uids_length (concat (firstn m _))).
+      apply Permutation_length, P1. }
+    assert (C2 : length (concat init) + length lastf = total (firstn (S m) (layers pop))).
+    { unfold total. rewrite <- app_length, <- (uids_length (concat init ++ lastf)), <- (uids_length (concat (firstn (S m) _))).
+      apply Permutation_length, P2. }
+    pose proof (total_firstn_le (layers pop) (S m)) as T. rewrite total_layers in T.
+    lia.
+  Qed.
+End DepthPrefix.
+
+Lemma k_cases (k : nat) : k = 0 \/ exists k0, k = S k0.
+Proof. destruct k; [left; reflexivity|right; eexists; reflexivity]. Qed.
 
 Section Generic.
   Variable o : numops.
+  Notation indV := (ind (V o)).
 
-  Lemma sel_some fronts k : fronts <> [] -> exists r, sel_nsga2 o fronts k = Some r.
+  (* ---------- assignCrowdingDist returns one distance per individual ---------- *)
+  Lemma bump_length i norm d t : length (bump o i norm d t) = length d.
+  Proof. destruct t as [[p c] x]. unfold bump. apply set_nth_length. Qed.
+
+  Lemma fold_bump_length i norm ts : forall d, length (fold_left (bump o i norm) ts d) = length d.
+  Proof. induction ts as [|t ts IH]; intro d; cbn; [reflexivity|]. rewrite IH. apply bump_length. Qed.
+
+  Lemma crowd_step_length nobj st i : length (snd (crowd_step o nobj st i)) = length (snd st).
   Proof.
-    intro H. unfold sel_nsga2. destruct (_ <? _)%Z; [|eauto].
-    destruct fronts; [congruence|eauto].
+    unfold crowd_step. destruct (sort_st _ _ _) as [|first rest]; [reflexivity|].
+    destruct (veqb o _ _); cbn [snd]; rewrite ?fold_bump_length, !set_nth_length; reflexivity.
   Qed.
+
+  Lemma fold_step_length nobj is : forall st,
+    length (snd (fold_left (crowd_step o nobj) is st)) = length (snd st).
+  Proof. induction is as [|i is IH]; intro st; cbn; [reflexivity|]. rewrite IH. apply crowd_step_length. Qed.
+
+  Lemma assign_crowding_length (front : list indV) : length (assign_crowding o front) = length front.
+  Proof.
+    destruct front as [|x0 r]; [reflexivity|]. unfold assign_crowding.
+    rewrite fold_step_length. cbn [snd]. apply repeat_length.
+  Qed.
+
+  (* ---------- shape of the selection ---------- *)
+  (* the last front in the order sorted(front, key=crowding_dist, reverse=True) *)
+  Definition keyed (lastf : list indV) := combine lastf (assign_crowding o lastf).
+  Definition cut_sorted (lastf : list indV) : list (indV * D o) := sort_st_rev (dltb o) snd (keyed lastf).
+
+  Lemma keyed_fst lastf : map fst (keyed lastf) = lastf.
+  Proof. apply combine_fst. symmetry. apply assign_crowding_length. Qed.
+
+  Lemma cut_sorted_perm lastf : Permutation (map fst (cut_sorted lastf)) lastf.
+  Proof.
+    rewrite <- (keyed_fst lastf) at 2. apply Permutation_map, Permutation_sym, sort_st_rev_perm.
+  Qed.
+
+  Lemma sel_snoc init lastf k :
+    let k' := (Z.of_nat k - Z.of_nat (length (concat init)))%Z in
+    sel_nsga2 o (init ++ [lastf]) k =
+    Some (if (0 <? k')%Z then concat init ++ map fst (firstn (Z.to_nat k') (cut_sorted lastf)) else concat init).
+  Proof.
+    intro k'. unfold sel_nsga2. rewrite removelast_last. fold k'.
+    destruct (0 <? k')%Z; [|reflexivity].
+    destruct (init ++ [lastf]) eqn:E; [destruct init; discriminate|].
+    rewrite <- E, last_last. reflexivity.
+  Qed.
+
+  Lemma sel_nil k : sel_nsga2 o [] k = if (0 <? Z.of_nat k)%Z then None else Some [].
+  Proof. unfold sel_nsga2. cbn. rewrite Z.sub_0_r. reflexivity. Qed.
+
+  (* ---------- the contract, relative to fronts_correct ---------- *)
+  Section Contract.
+    Variables (pop : list indV) (k : nat) (fronts : list (list indV)) (r : list indV).
+    Hypothesis W : wf_pop pop.
+    Hypothesis FC : fronts_correct pop k fronts.
+    Hypothesis SEL : sel_nsga2 o fronts k = Some r.
+
+    Definition selected (y : indV) : Prop := In (uid y) (uids r).
+
+    (* no IndexError *)
+    Lemma sel_defined_aux : forall fr k', fronts_correct pop k' fr -> exists r', sel_nsga2 o fr k' = Some r'.
+    Proof.
+      intros fr k' F. destruct k' as [|k0].
+      - destruct F as [_ ->]. rewrite sel_nil. cbn. eauto.
+      - destruct (fronts_shape pop k0 fr F) as [m [init [lastf [-> _]]]]. rewrite sel_snoc. eauto.
+    Qed.
+
+    (* k = 0 *)
+    Lemma sel_k0 : k = 0 -> r = [].
+    Proof.
+      intro K. subst k. destruct FC as [_ E]. subst fronts. rewrite sel_nil in SEL. cbn in SEL. congruence.
+    Qed.
+
+    (* k > 0: explicit form of the result *)
+    Lemma sel_shape k0 : k = S k0 ->
+      exists m init lastf n',
+        fronts = init ++ [lastf] /\
+        r = concat init ++ map fst (firstn n' (cut_sorted lastf)) /\
+        n' = k - length (concat init) /\ 0 < n' /\
+        Permutation (uids (concat init)) (uids (concat (firstn m (layers pop)))) /\
+        Permutation (uids (concat init ++ lastf)) (uids (concat (firstn (S m) (layers pop)))) /\
+        Nat.min k (length pop) <= length (concat init) + length lastf /\
+        length (concat init) + length lastf <= length pop.
+    Proof.
+      intro K. subst k. destruct (fronts_shape pop k0 fronts FC) as [m [init [lastf [E [P1 [P2 [Lo [Hi Le]]]]]]]].
+      exists m, init, lastf, (S k0 - length (concat init)).
+      subst fronts. rewrite sel_snoc in SEL. cbv zeta in SEL.
+      remember (Z.of_nat (S k0) - Z.of_nat (length (concat init)))%Z as kz eqn:Ekz.
+      assert (G : (0 <? kz)%Z = true) by (apply Z.ltb_lt; lia).
+      assert (En : Z.to_nat kz = S k0 - length (concat init)) by lia.
+      rewrite G, En in SEL. injection SEL as <-.
+      repeat split; try assumption; lia.
+    Qed.
+
+    Theorem size_min : length r = Nat.min k (length pop).
+    Proof.
+      destruct (k_cases k) as [K|[k0 K]]; [rewrite (sel_k0 K), K; reflexivity|].
+      destruct (sel_shape k0 K) as [m [init [lastf [n' [_ [-> [En [Pos [_ [_ [Hi Le]]]]]]]]]]].
+      rewrite app_length, map_length, firstn_length.
+      assert (L : length (cut_sorted lastf) = length lastf).
+      { rewrite <- (map_length fst). apply Permutation_length, cut_sorted_perm. }
+      rewrite L. lia.
+    Qed.
+
+    (* r and what was dropped from the cut front, together, are the fronts *)
+    Lemma sel_in_fronts x : In x r -> In x (concat fronts).
+    Proof.
+      destruct (k_cases k) as [K|[k0 K]]; [rewrite (sel_k0 K); contradiction|].
+      destruct (sel_shape k0 K) as [m [init [lastf [n' [-> [-> _]]]]]].
+      rewrite concat_snoc. intro I. apply in_app_or in I. apply in_or_app.
+      destruct I as [I|I]; [left; exact I|right].
+      eapply Permutation_in; [apply cut_sorted_perm|]. rewrite <- firstn_map in I. eapply in_firstn, I.
+    Qed.
+
+    Theorem refs : forall x, In x r -> In x pop.
+    Proof.
+      intros x I. apply sel_in_fronts in I. apply in_concat in I. destruct I as [f [If Ix]].
+      destruct FC as [M _]. eapply M; eassumption.
+    Qed.
+
+    Lemma prefix_nodup m : NoDup (uids (concat (firstn m (layers pop)))).
+    Proof.
+      pose proof (layers_nodup pop W) as N. rewrite <- (firstn_skipn m (layers pop)) in N.
+      rewrite concat_app in N. unfold uids in *. rewrite map_app in N. apply nodup_app_inv in N. tauto.
+    Qed.
+
+    Theorem nodup : NoDup (uids r).
+    Proof.
+      destruct (k_cases k) as [K|[k0 K]]; [rewrite (sel_k0 K); constructor|].
+      destruct (sel_shape k0 K) as [m [init [lastf [n' [_ [-> [_ [_ [_ [P2 _]]]]]]]]]].
+      assert (N : NoDup (uids (concat init ++ map fst (cut_sorted lastf)))).
+      { eapply Permutation_NoDup; [|apply (prefix_nodup (S m))].
+        apply Permutation_sym. eapply perm_trans; [|exact P2].
+        unfold uids. apply Permutation_map, Permutation_app_head, cut_sorted_perm. }
+      unfold uids in *. rewrite map_app in *. apply nodup_app_inv in N. destruct N as [N1 [N2 N3]].
+      apply nodup_app_intro; [exact N1| |].
+      - rewrite <- firstn_map, <- firstn_map. apply nodup_firstn. rewrite map_map in N2. rewrite map_map. exact N2.
+      - intros u I1 I2. apply (N3 u I1). rewrite <- !firstn_map in I2. eapply in_firstn. rewrite map_map in *. exact I2.
+    Qed.
+
+    (* depth facts for selected / excluded individuals *)
+    Lemma pop_uid_in_layers y : In y pop -> In (uid y) (uids (concat (layers pop))).
+    Proof.
+      intro I. unfold uids. apply in_map. eapply Permutation_in; [apply Permutation_sym, layers_perm|exact I].
+    Qed.
+
+    Lemma cut_exists :
+      exists c, (forall x, In x r -> depth pop x <= c) /\
+                (forall y, In y pop -> depth pop y < c -> selected y).
+    Proof.
+      destruct (k_cases k) as [K|[k0 K]].
+      - exists 0. rewrite (sel_k0 K). split; [intros ? []|intros; lia].
+      - destruct (sel_shape k0 K) as [m [init [lastf [n' [Ef [Er [_ [_ [P1 [P2 _]]]]]]]]]].
+        exists m. split.
+        + intros x I. pose proof (refs x I) as Ip. apply sel_in_fronts in I. rewrite Ef, concat_snoc in I.
+          assert (H : depth_in (layers pop) (uid x) < S m).
+          { apply depth_prefix; [apply pop_uid_in_layers, Ip|].
+            eapply Permutation_in; [exact P2|]. unfold uids. apply in_map, I. }
+          unfold depth. lia.
+        + intros y Iy Dy. unfold selected. rewrite Er. unfold uids. rewrite map_app. apply in_or_app. left.
+          eapply Permutation_in; [apply Permutation_sym, P1|].
+          apply depth_prefix; [apply pop_uid_in_layers, Iy|exact Dy].
+    Qed.
+
+    Theorem front_priority : forall x y, In x r -> In y pop -> ~ selected y -> depth pop x <= depth pop y.
+    Proof.
+      destruct cut_exists as [c [H1 H2]]. intros x y Ix Iy Ny.
+      specialize (H1 x Ix). destruct (Nat.lt_ge_cases (depth pop y) c) as [L|G]; [|lia].
+      exfalso. apply Ny, H2; assumption.
+    Qed.
+
+    Theorem one_partial_front :
+      exists c, forall y, In y pop ->
+        (depth pop y < c -> selected y) /\ (c < depth pop y -> ~ selected y).
+    Proof.
+      destruct cut_exists as [c [H1 H2]]. exists c. intros y Iy. split; [apply H2, Iy|].
+      intros G S. unfold selected in S. unfold uids in S. apply in_map_iff in S. destruct S as [x [E Ix]].
+      specialize (H1 x Ix). unfold depth in *. rewrite E in H1. lia.
+    Qed.
+
+    (* crowding order inside the cut front, for a comparison that is a strict weak order on a
+       domain P containing the distances assigned to the last front *)
+    Section Cut.
+      Variable P : D o -> Prop.
+      Hypothesis lt_asym : forall a b, P a -> P b -> dltb o a b = true -> dltb o b a = false.
+      Hypothesis lt_ntrans : forall a b c, P a -> P b -> P c ->
+        dltb o b a = false -> dltb o c b = false -> dltb o c a = false.
+
+      Theorem crowding_cut :
+        forall lastf, lastf = last fronts [] ->
+        Forall P (assign_crowding o lastf) ->
+        forall x dx y dy, In (x, dx) (keyed lastf) -> In (y, dy) (keyed lastf) ->
+          selected x -> ~ selected y -> dltb o dx dy = false.
+      Proof.
+        intros lastf0 EL FP x dx y dy Ix Iy Sx Ny.
+        destruct (k_cases k) as [K|[k0 K]].
+        { exfalso. unfold selected in Sx. rewrite (sel_k0 K) in Sx. contradiction. }
+        destruct (sel_shape k0 K) as [m [init [lastf [n' [Ef [Er [_ [_ [_ [P2 _]]]]]]]]]].
+        assert (H : lastf0 = lastf) by (rewrite EL, Ef; apply last_last). clear EL. subst lastf0.
+        assert (N : NoDup (uids (concat init ++ lastf))).
+        { eapply Permutation_NoDup; [apply Permutation_sym, P2|apply prefix_nodup]. }
+        unfold uids in N. rewrite map_app in N. apply nodup_app_inv in N. destruct N as [_ [N2 N3]].
+        assert (FPk : Forall (fun e => P (snd e)) (keyed lastf)).
+        { apply Forall_forall. intros [z dz] Iz. rewrite Forall_forall in FP. apply FP.
+          eapply in_combine_r, Iz. }
+        apply (sort_st_rev_cut (dltb o) snd P lt_asym lt_ntrans (keyed lastf) n' FPk (x, dx) (y, dy)).
+        - (* (x,dx) is among the kept ones *)
+          unfold selected in Sx. rewrite Er in Sx. unfold uids in Sx. rewrite map_app in Sx.
+          apply in_app_or in Sx. destruct Sx as [Sx|Sx].
+          + exfalso. apply (N3 (uid x) Sx). apply in_map. eapply in_combine_l, Ix.
+          + apply in_map_iff in Sx. destruct Sx as [x' [E Ix']]. apply in_map_iff in Ix'.
+            destruct Ix' as [[x'' d'] [E' I']]. cbn in E'. subst x''.
+            assert (Q : (x', d') = (x, dx)).
+            { apply (combine_inj_key uid lastf (assign_crowding o lastf)); [exact N2| |exact Ix|exact E].
+              eapply Permutation_in; [apply Permutation_sym, (sort_st_rev_perm (dltb o) snd)|]. eapply in_firstn, I'. }
+            rewrite <- Q. exact I'.
+        - (* (y,dy) is among the dropped ones *)
+          assert (Iy' : In (y, dy) (cut_sorted lastf)).
+          { eapply Permutation_in; [apply (sort_st_rev_perm (dltb o) snd)|exact Iy]. }
+          unfold cut_sorted in Iy'. rewrite <- (firstn_skipn n' (sort_st_rev _ _ _)) in Iy'.
+          apply in_app_or in Iy'. destruct Iy' as [Iy'|Iy']; [|exact Iy'].
+          exfalso. apply Ny. unfold selected. rewrite Er. unfold uids. rewrite map_app. apply in_or_app. right.
+          apply in_map_iff. exists y. split; [reflexivity|]. apply in_map_iff. exists (y, dy). split; [reflexivity|exact Iy'].
+      Qed.
+    End Cut.
+  End Contract.
 End Generic.
